@@ -11,7 +11,8 @@
 (*              object by JsonHeader!TrueObjectEnd, r1 = r2 = r (scores clamped), and t2 = t1.        *)
 (*  op = "hdr"  a random title line (JSON object by the standard encoder + free text) given to the    *)
 (*              real header parser: accepted iff it did not abort, kept every annotation by value and *)
-(*              left as definition what follows JsonHeader!TrueObjectEnd.                             *)
+(*              left as definition what follows JsonHeader!TrueObjectEnd, and the header formatted    *)
+(*              from the result parses back to the same annotations and the same text.                *)
 (*  op = "cmd"  obiconvert | obiconvert on a file written by the library: accepted iff both exit 0    *)
 (*              and each output is RoundTrip!Convert of its input.                                    *)
 EXTENDS Integers, Sequences, TLC, Json, CSV, IOUtils
@@ -94,6 +95,10 @@ HdrVerdict(e) ==
   ELSE IF e.fatal # 0 THEN "hdr-fatal"
   ELSE IF e.def # TrimB(SubSeq(e.line, end + 1, Len(e.line))) THEN "hdr-definition"
   ELSE IF e.ann_out # e.ann_in THEN "hdr-annotations"
+  \* the header formatted from what was parsed is itself one JSON object, parsed back to the same annotations and text
+  ELSE IF e.text2 # <<>> /\ JH!TrueObjectEnd(Toks(e.text2)) # Len(e.text2) THEN "hdr-formatted-not-one-json-object"
+  ELSE IF e.ann2 # e.ann_all THEN "hdr-reparse-annotations"
+  ELSE IF e.text3 # e.text2 THEN "hdr-reparse-text"
   ELSE "ok"
 
 ---------------------------------------------------------------------------
